@@ -29,15 +29,18 @@ THEOREMS = [
     'SF.C20.index_moves_rows_perm',
     'SF.C20.pivot_spec', 'SF.C20.pivot_spec_no_columns', 'SF.C20.pivot_singleton_counterexample',
     'SF.C20.stack_cells_spec', 'SF.C20.unstack_cells_spec', 'SF.C20.stack_unstack_inverse_partial',
+    'SF.C20.stack_unstack_roundtrip', 'SF.C20.stack_unstack_roundtrip_ordered', 'SF.C20.stack_unstack_roundtrip_id',
+    'SF.C20.stack_unstack_roundtrip_cells',
 ]
 PARTIAL = [
     'SF.C20.join_noncomposite_partial: composite_index=False proved for INNER, and for LEFT when no unmatched left label is also a '
     'right label; LEFT otherwise, RIGHT and OUTER have proved counterexamples (finding F6-join-noncomposite-label-alignment)',
     'SF.C20.pivot_spec: each cell is aggOne(func) of exactly its source rows: func is NOT applied to one-row groups '
     '(pivot_singleton_counterexample, finding C20-pivot-singleton-func); equals func(...) when func [v] = v',
-    'SF.C20.stack_unstack_inverse_partial: both halves proved cell by cell (stack_cells_spec, unstack_cells_spec: every produced cell is the source cell of '
-    'the same row / column carrying (group, target); fill only where none exists); the identification of positions needed for the full round trip '
-    'unstack(stack(f)) = f on uniform column trees is checked by the harness only',
+    'SF.C20.stack_unstack_inverse_partial: superseded by SF.C20.stack_unstack_roundtrip (full round trip on well-formed frames - unique labels, '
+    'uniform column tree, rectangular rows, predicate StackWF: unstack(stack f) is f with its columns gathered group by group, a permutation; the identity '
+    'when the columns are already group-major, stack_unstack_roundtrip_id); outside StackWF (empty axes, all-true mask, non-uniform trees: fill values appear) '
+    'only the cell-level statements stack_cells_spec / unstack_cells_spec hold',
 ]
 CORR_ONLY = ['pivot_stack / pivot_unstack on hierarchical columns (reference + round trip on the real code)',
              'order of the distinct keys delivered by ufunc_unique / iter_group_items (parameter `uniq` of the model; results compared as label -> row maps)',
